@@ -70,3 +70,24 @@ Definition policies_eqb (a b : policies) : bool :=
   forallb (fun p => String.eqb (fst (fst p)) (fst (snd p)) && bundle_eqb (snd (fst p)) (snd (snd p))) (combine a b).
 
 Definition check_loaded (c : document * policies) : bool := policies_eqb (load_document (fst c)) (snd c).
+
+(* ------------------------------------------------------------------ the policy store fed by the directory monitor *)
+
+(* Every entry of the store is a built-in policy or what the loader builds from a document that is on disk NOW
+   (which of several files defining the same name wins is property C18's business). *)
+Definition from_disk (builtin : policies) (docs : list document) (store : policies) : Prop :=
+  forall pn b, slookup pn store = Some b ->
+    slookup pn builtin = Some b \/ exists d, In d docs /\ slookup pn (load_document d) = Some b.
+
+(* comparator for tie K: the observed store after a scan against the documents on disk; reserved (built-in) names
+   must carry the built-in policy *)
+Definition entry_from_disk (builtin : policies) (docs : list document) (e : string * bundle) : bool :=
+  match slookup (fst e) builtin with
+  | Some b' => bundle_eqb (snd e) b'
+  | None => existsb (fun d => match slookup (fst e) (load_document d) with
+                              | Some b' => bundle_eqb (snd e) b'
+                              | None => false end) docs
+  end.
+Definition from_disk_b (builtin : policies) (docs : list document) (store : policies) : bool :=
+  forallb (entry_from_disk builtin docs) store.
+Definition check_store (builtin : policies) (c : list document * policies) : bool := from_disk_b builtin (fst c) (snd c).
